@@ -130,6 +130,8 @@ def release_cross(ctx, models, gen, loads):
 
 def run(ctx):
     rng = random.Random(ctx.seed + 12)
+    strcfg = strconfig_part(ctx)  # first: the replay pool forks this process
+    ctx.note(f"StrConfig: {strcfg['maximal_sequences_replayed']} operation sequences replayed, {strcfg['probes_judged']} probes judged")
     r = sc.model_check(ctx, "MCSerRound", "MCSerRound.cfg" if ctx.quick else "MCSerRoundBig.cfg", ACTIONS)
     models = sc.tlc_values(ctx, big=False)
     ngen = 500 if ctx.quick else 5000
@@ -157,7 +159,6 @@ def run(ctx):
     # shipped"); then each side loads what the other side wrote.
     rel = release_cross(ctx, models, gen, loads)
     cases += rel
-    strcfg = strconfig_part(ctx)
     verdicts = sc.judge(ctx, cases)
     nontrivial = set()
     for c, vd in zip(cases, verdicts):
